@@ -51,7 +51,10 @@ func matchSubdomain(domain, pattern string) bool {
 		}
 		p := patComp[i]
 		if p == "*" {
-			return true
+			// the wildcard label stands for the remaining (left-most) labels of the domain, so it
+			// must be the left-most label of the pattern; anything else is left to the compiled
+			// AllowOrigins patterns, which match the whole origin
+			return i == len(patComp)-1
 		}
 		if p != v {
 			return false
